@@ -303,7 +303,7 @@ theorem do_rejected_is_inert (pre : Predef) (env : Env V) (n : Node J V) (hwf : 
 /-! ### the monitors' property holds of the model, and along every history -/
 
 /-- every request served by the model satisfies the specification that the monitors check on the implementation -/
-theorem request_ok (pre : Predef) (env : Env V) (n : Node J V) (hwf : Node.WF pre n) (r : Request J) :
+theorem request_ok (pre : Predef) (env : Env V) (n : Node J V) (hwf : Node.WF pre n) (r : Request J V) :
     RequestOK pre env n r (obsOf n (step pre env n r)) := by
   cases r with
   | change spec j =>
@@ -350,11 +350,21 @@ theorem request_ok (pre : Predef) (env : Env V) (n : Node J V) (hwf : Node.WF pr
                 · unfold readFailed; split <;> rfl
                 · rfl
             · rfl
+  | assign m attr raw =>
+    simp only [RequestOK, step, obsOf]
+    unfold handleAssign
+    split
+    · rfl
+    · split
+      · split
+        · unfold readFailed; split <;> rfl
+        · rfl
+      · rfl
 
 /-- **histories.**  Along any sequence of requests — including those that move `_min/_max/_limits` —
 with the drivers and hooks behaving differently at every step, every request is judged correctly against
 the node as the earlier requests left it, and the node stays well-formed. -/
-theorem histories (pre : Predef) (n : Node J V) (hwf : Node.WF pre n) (h : List (Env V × Request J)) :
+theorem histories (pre : Predef) (n : Node J V) (hwf : Node.WF pre n) (h : List (Env V × Request J V)) :
     HistoryOK pre n h ∧ Node.WF pre (finalNode pre n h) := by
   induction h generalizing n with
   | nil => exact ⟨trivial, hwf⟩
